@@ -645,6 +645,20 @@ pub fn run(a: &RunArgs) -> Outcome {
         println!("  detail: {}", f.violation.detail.lines().next().unwrap_or(""));
         println!("  profile={} seed={} job={} run={}  ({} occurrences)", f.profile, a.seed, f.job, f.sub, sig_counts.get(&f.violation.signature()).copied().unwrap_or(1));
     }
+    // informational probes (never an alarm)
+    {
+        let mut notes: BTreeMap<String, u64> = BTreeMap::new();
+        for (_, r) in &results {
+            for (k, n) in &r.total.counters {
+                if let Some(t) = k.strip_prefix("probe:NOTE:") {
+                    *notes.entry(t.to_string()).or_insert(0) += n;
+                }
+            }
+        }
+        for (k, n) in notes {
+            println!("NOTE: {} ({} runs)", k, n);
+        }
+    }
     let evals: u64 = results.iter().map(|(_, r)| r.total.evals).sum();
     println!(
         "[{}] tier={} seed={} evaluations={} new-violations={} known-findings={} wall={:.1}s",
